@@ -241,7 +241,8 @@ pub fn run(tier: Tier) -> i32 {
     rep.assumptions = vec!["as C01".into()];
     install_panic_hook();
     let t = table();
-    let pool = read_all(&["y", "x", "2", "x+1", "z*x", "w", "f(y)-x", "{a b}"], &t);
+    // incl. replacements that are the replaced variable itself under unary operators only
+    let pool = read_all(if tier.thorough() { &["y", "x", "2", "x+1", "z*x", "w", "-x", "f(x)", "f(y)-x", "{a b}", "-f(z)"][..] } else { &["y", "x", "2", "x+1", "z*x", "w", "-x", "f(x)"][..] }, &t);
     let leaves = vec![Tree::var("x"), Tree::var("y"), Tree::var("z"), Tree::lit(1)];
     let small = bases_of(Alphabet { leaves: leaves.clone(), uns: vec![2, 4], bins: vec![0, 1, 2, 3] }, &[(1, 0), (1, 1), (2, 0), (2, 1)], &t);
     let n_small = small.len();
